@@ -65,6 +65,7 @@ class HistSim(Sim):
         st.ledger = {}       # leaf id -> float64 array | None
         st.abs = {}          # leaf id -> float (sum of |contributions|)
         st.unknown = set()   # leaves whose gradient is unknown until their next reset (after an injected fault)
+        st.lowprec = set()   # leaves whose buffer has been float32 since their last reset
         st.module = None
         st.module_ids = []
         st.opt = None
@@ -158,7 +159,7 @@ class HistSim(Sim):
         outs = list(range(st.next_id, st.next_id + nout))
         ev = {"k": "op", "op": name, "in": ins, "args": args, "out": outs, "actor": rng.randrange(st.knobs["actors"])}
         if st.knobs["faulty"] and rng.random() < 0.06:
-            ev["fault"] = {"kind": rng.choice(["alloc", "interrupt"]), "at": rng.randint(1, 2)}
+            ev["fault"] = {"kind": rng.choice(["alloc", "interrupt", "exit"]), "at": rng.randint(1, 2)}
         return ev
 
     def _gen_backward(self, rng, st, rg_all):
@@ -179,14 +180,17 @@ class HistSim(Sim):
         if t.data.size == 1 and rng.random() < 0.6:
             g = None
         else:
-            g = enc(small_values(rng, t.data.shape, np.float32 if t.data.dtype == np.float32 else np.float64, -2, 2))
+            # the upstream gradient usually has the root's dtype, sometimes the other floating dtype
+            same = rng.random() < 0.8
+            gdt = t.data.dtype.type if same else (np.float64 if t.data.dtype == np.float32 else np.float32)
+            g = enc(small_values(rng, t.data.shape, gdt, -2, 2))
         ev = {"k": "backward", "root": root, "g": g}
         if st.knobs["faulty"] and rng.random() < 0.3:
             n = max(1, len(self._reach(st, root)))
             if rng.random() < 0.5:
-                ev["fault"] = {"kind": rng.choice(["alloc", "interrupt"]), "seam": "kernel", "at": rng.randint(1, 2 * n)}
+                ev["fault"] = {"kind": rng.choice(["alloc", "interrupt", "exit"]), "seam": "kernel", "at": rng.randint(1, 2 * n)}
             else:
-                ev["fault"] = {"kind": rng.choice(["alloc", "interrupt"]), "seam": "bw", "at": rng.randint(1, n)}
+                ev["fault"] = {"kind": rng.choice(["alloc", "interrupt", "exit"]), "seam": "bw", "at": rng.randint(1, n)}
         return ev
 
     def _gen_zero(self, rng, st):
@@ -266,7 +270,11 @@ class HistSim(Sim):
                     st.fail("C04.ledger", f"{where}: .grad of leaf {i} has shape {obs.shape}, leaf has {t.data.shape}", leaf=i)
             if exp is None:
                 exp = np.zeros(t.data.shape)
-            low = (t.data.dtype == np.float32) or (g is not None and g.data.dtype == np.float32)
+            # precision class of the buffer since the last reset (a root's buffer takes the dtype of the caller's g - a dtype matter,
+            # C10, not decided here - so a float32 g makes the accumulation single precision until the next reset)
+            if g is not None and g.data.dtype == np.float32:
+                st.lowprec.add(i)
+            low = (t.data.dtype == np.float32) or i in st.lowprec
             eps = 1.2e-7 if low else 2.3e-16
             tol = 64 * eps * (st.abs.get(i, 0.0) + 1e-30) + 1e-300
             err = float(np.max(np.abs(obs - exp))) if obs.size else 0.0
@@ -461,6 +469,7 @@ class HistSim(Sim):
             st.ledger[i] = None
             st.abs[i] = 0.0
             st.unknown.discard(i)
+            st.lowprec.discard(i)
         if st.last_fault_root is not None and not (self._reach(st, st.last_fault_root[0]) & st.unknown):
             pass
         st.since_reset_calls = 0
